@@ -35,6 +35,7 @@ SCRIPTS = {
     "all": (HEAD + "from Reduino.Actuators import Servo\nfrom Reduino.Displays import LCD\nsv = Servo(9)\nlcd = LCD(rs=12, en=11, d4=5, d5=4, d6=3, d7=2)\npanel = LCD(i2c_addr=39)\n", ["Servo", "LiquidCrystal", "LiquidCrystal_I2C"]),
     "servo_in_loop": (HEAD + "from Reduino.Actuators import Servo\nwhile True:\n    arm = Servo(9)\n    arm.write(90)\n", ["Servo"]),
     "servo_in_loop_lcd_top": (HEAD + "from Reduino.Actuators import Servo\nfrom Reduino.Displays import LCD\npanel = LCD(i2c_addr=39)\nwhile True:\n    arm = Servo(9)\n    arm.write(90)\n    panel.line(0, \"x\")\n", ["Servo", "LiquidCrystal_I2C"]),
+    "tab_literal": (HEAD + "from Reduino.Communication import SerialMonitor\nmon = SerialMonitor(9600)\nmon.write(\"T:\t21C\")\nx = 'id\tvalue'\nmon.write(x)\n", []),
     "rejected": (HEAD + "from Reduino.Actuators import Led\nled = Led(13)\nwhile True:\n    break\n", None),
 }
 PAIRS = {
@@ -43,6 +44,11 @@ PAIRS = {
     "mismatch": ("atmelavr", "nano_every"),
     "bad_platform": ("espressif32", "uno"),
     "bad_board": ("atmelavr", "not_a_board"),
+    "bad_empty_board": ("atmelavr", ""),
+    "bad_empty_platform": ("", "uno"),
+    "bad_both_empty": ("", ""),
+    "bad_none_board": ("atmelavr", None),
+    "bad_none_platform": (None, "uno"),
 }
 FAULTS = ["none", "version", "read_main", "mkdtemp", "mkdir", "write_main", "write_ini", "run", "upload"]
 
